@@ -1104,6 +1104,68 @@ def rule_r19(prog, res):
     res.floor('R19', 'base constructor calls of the dict protocols', k_, 2)
 
 
+def rule_r20(prog, res):
+    res.rule('R20', 'the wrapper key selects a subclass as soon as the '
+             'declared class has one: the test on the number of registered '
+             'descendants holds for a single descendant')
+    from ..constfold import try_fold
+    h = prog.cls('spyne.protocol.dictdoc.hier:HierDictDocument')
+    f = h.methods.get('_doc_to_object')
+    if f is None:
+        raise AnalysisError('HierDictDocument._doc_to_object', 'not found')
+    n = 0
+    regs = {t.id for a in walk_no_defs(f.node) if isinstance(a, ast.Assign)
+            and isinstance(a.value, ast.Call) and
+            call_name(a.value) == 'get_subclasses'
+            for t in a.targets if isinstance(t, ast.Name)}
+    # the tests that decide whether the descendants are looked at
+    tests = []
+    for i in walk_no_defs(f.node):
+        if isinstance(i, (ast.If, ast.IfExp, ast.While)):
+            conj = i.test.values if isinstance(i.test, ast.BoolOp) and \
+                isinstance(i.test.op, ast.And) else [i.test]
+            def uses(block):
+                block = block if isinstance(block, list) else [block]
+                return any(isinstance(y, ast.Name) and y.id in regs
+                           for st in block for y in ast.walk(st))
+            if uses(i.body):
+                tests += [(e, True) for e in conj]
+            elif len(conj) == 1 and uses(i.orelse):
+                tests += [(conj[0], False)]
+    for e, pol in tests:
+        vars_ = [unparse(c.args[0]) for c in ast.walk(e)
+                 if isinstance(c, ast.Call) and call_name(c) == 'len' and
+                 c.args and unparse(c.args[0]) in regs]
+        if not vars_:
+            continue
+        var = vars_[0]
+        if True:
+            n += 1
+            known, v = try_fold(prog, f.module, e, {var: ('one',)})
+            where = '%s:%d' % (f.module.relpath, e.lineno)
+            if not known:
+                res.unclass('R20', where, 'descendant count test ' +
+                            unparse(e))
+                continue
+            ok = bool(v) == pol
+            res.ob('R20', where, '_doc_to_object scans the descendants when '
+                   '%s%s: %s for a single descendant' % (
+                       '' if pol else 'not ', unparse(e), 'holds' if ok
+                       else 'fails'), 'ok' if ok else 'VIOLATED')
+            if not ok:
+                res.finding('R20', 'HierDictDocument._doc_to_object|single-'
+                            'descendant-ignored', where, 'the wrapper key is '
+                            'looked up among the descendants only when "%s": '
+                            'with exactly one descendant (Shape <- Circle) '
+                            'the key the writer put there is ignored, the '
+                            'declared class is built and the fields of the '
+                            'subclass are dropped without an error' %
+                            unparse(e))
+    if not regs:
+        raise AnalysisError('HierDictDocument._doc_to_object',
+                            'descendant registry read not found')
+
+
 def run(prog, res, tier):
     res.run_rule(rule_r1, prog, res)
     res.run_rule(rule_r2, prog, res)
@@ -1124,6 +1186,7 @@ def run(prog, res, tier):
     res.run_rule(rule_r17, prog, res)
     res.run_rule(rule_r18, prog, res)
     res.run_rule(rule_r19, prog, res)
+    res.run_rule(rule_r20, prog, res)
 
 
 _C = 'spyne/model/complex.py'
@@ -1133,6 +1196,16 @@ _I = 'spyne/interface/_base.py'
 _H = 'spyne/protocol/dictdoc/hier.py'
 
 MUTANTS = [
+    Mutant('wrapper-key-needs-two-descendants', 'R20', 'fire',
+           'spyne/protocol/dictdoc/hier.py',
+           in_func('HierDictDocument._doc_to_object',
+                   "and len(subclasses) > 0:", "and len(subclasses) > 1:"),
+           'single-descendant-ignored'),
+    Mutant('wrapper-key-at-least-one-descendant', 'R20', 'twin',
+           'spyne/protocol/dictdoc/hier.py',
+           in_func('HierDictDocument._doc_to_object',
+                   "and len(subclasses) > 0:", "and len(subclasses) >= 1:"),
+           None),
     Mutant('wrapper-key-from-instance', 'R19', 'fire', _H,
            in_func('HierDictDocument._complex_to_dict',
                    "return {cls.get_type_name(): d}",
